@@ -8,6 +8,7 @@ import sys
 from ..interp import cval, has_const
 from ..source import norm_text
 from .formula import match_mono, unit_text
+from .common import def_map, expand
 from .geo import uniq_events
 
 VOL = 'gemdat.volume.Volume'
@@ -57,6 +58,21 @@ def check(ctx):
         if src is not None and nrm is not None and nrm[0] == 'sum':
             ok = src.store == 'attr:Volume.data' or src.store == 'attr:FreeEnergyVolume.data'
             ctx.ob('R1', fi, 'normalised array', True if ok else None, "the volume's own density" if ok else f'normalised array has provenance {src.store}')
+    for q in (f'{VOL}.probability',):
+        fpq = ctx.p.functions.get(q)
+        if fpq is None:
+            continue
+        defs = def_map(fpq.node)
+        for n in ast.walk(fpq.node):
+            if isinstance(n, ast.BinOp) and isinstance(n.op, ast.Div) and norm_text(n.left) == 'self.data':
+                den = expand(n.right, defs)
+                t = norm_text(den).replace(' ', '')
+                if t in ('self.data.sum()', 'np.sum(self.data)', 'self.data.sum(axis=None)'):
+                    ctx.ob('R1', fpq, n, True, 'density divided by the sum of the current density')
+                elif t.startswith('self.') and t[5:].isidentifier():
+                    ctx.ob('R1', fpq, n, False,
+                           f'the total density is read from the attribute `{t}` instead of being summed from the current `self.data`: Volume is a '
+                           f'mutable dataclass, so after the density is edited or replaced the probabilities no longer sum to one')
     # ---- R2 + R3 from the constructed FreeEnergyVolume
     cons = [e for e in it.events if e['tag'] == 'construct' and e['cls'] == 'gemdat.volume.FreeEnergyVolume']
     if not cons:
